@@ -496,7 +496,7 @@ Proof.
 Qed.
 
 Lemma wp_update_intermediates : forall g (Q : unit -> lst -> Prop) (E : exn -> lst -> Prop) l,
-  LP g l -> (forall l', LP g l' -> Q tt l') -> wp (update_intermediates g) Q E l.
+  LP g l -> (forall l', LP g l' -> Q tt l') -> wp (update_intermediates g TI) Q E l.
 Proof.
   intros g Q E l H HQ. unfold update_intermediates. wnext. wnext. wnext. wnext. apply wp_setkey, HQ.
   apply (LP_setkey g _ K_control_matrix_step). apply (LP_setkey g _ K_first_order_integral).
@@ -510,13 +510,18 @@ Proof.
   intros g ci Q l H HQ. unfold get_cm, omega_equal.
   apply wp_bind. wnext. apply wp_ret.
   assert (Hcomp : forall l1, LCG g l1 ->
-     wp (diagonalize;;; t_prop;;; may_raise L_cm;;; (if ci then update_intermediates g else ret tt);;;
+     wp (diagonalize;;; t_prop;;; may_raise L_cm;;; ev <- getslot S_eigvecs;;
+         (if ci then update_intermediates g (eig_tag_of ev) else ret tt);;;
          cache_cm_given fixed g (TF g) false;;; v <- getslot S_control_matrix;;
          ret (match v with Some v => v | None => TI end, Computed)) Q EA l1).
   { intros l1 H1. apply wp_bind.
     apply (wp_diagonalize (LCG g)); [apply stable_LCG | exact H1 | ]. intros l2 H2. cbv beta.
     apply wp_bind. apply (wp_t_prop (LCG g)); [apply stable_LCG | exact H2 | ]. intros l3 H3. cbv beta.
     apply wp_bind. apply wp_may_raise; [split; [eapply LCG_LC, H3 | apply Hinj] | ]. cbv beta.
+    wnext. change (sl (logL l3 L_cm) S_eigvecs) with (sl l3 S_eigvecs).
+    assert (Hev : eig_tag_of (sl l3 S_eigvecs) = TI).
+    { destruct H3 as [[Hs _] _]. destruct (Hs S_eigvecs) as [-> | ->]; reflexivity. }
+    rewrite Hev.
     apply wp_seq with (R := fun _ l' => LP g l').
     - destruct ci; [apply wp_update_intermediates; [apply LCG_LP, H3 | auto] | apply wp_ret, LCG_LP, H3].
     - intros _ l4 H4. apply wp_bind. apply wp_cache_cm_given_LP; [exact H4 | ]. intros l5 H5 E5. cbv beta.
@@ -602,15 +607,31 @@ Proof. intros g. unfold derive. simpl. rewrite grid_eqb_refl. reflexivity. Qed.
 Lemma derive_3 : forall g, derive g [TF g; TI; TF g] = Ret (TF g).
 Proof. intros g. unfold derive. simpl. rewrite grid_eqb_refl. reflexivity. Qed.
 
+Lemma LP_eigvecs : forall g l, LP g l -> eig_tag_of (sl l S_eigvecs) = TI.
+Proof. intros g l [Hs _]. destruct (Hs S_eigvecs) as [-> | ->]; reflexivity. Qed.
+
 Lemma wp_second_order : forall g P (Q : tag -> lst -> Prop) l,
   logstable g P -> P l -> (forall l', P l' -> Q (TF g) l') -> wp (second_order g) Q EA l.
 Proof.
-  intros g P Q l [Hlog [HLP HLC]] HP HQ. unfold second_order. wnext. wnext.
+  intros g P Q l [Hlog [HLP HLC]] HP HQ. unfold second_order. wnext. wnext. wnext. wnext.
   apply wp_bind. apply wp_may_raise; [split; [apply HLC, Hlog, HP | apply Hinj] | ]. cbv beta.
-  destruct (di l K_basis_transformed) eqn:Eb; [ | apply wp_ret, HQ, Hlog, HP].
-  destruct (di l K_control_matrix_step) eqn:Ec; [ | apply wp_ret, HQ, Hlog, HP].
-  pose proof (LP_readk g l _ _ (HLP l HP) Eb) as Hb. pose proof (LP_readk g l _ _ (HLP l HP) Ec) as Hc.
-  simpl in Hb, Hc. subst. rewrite derive_it. apply wp_lift_ret, HQ, Hlog, HP.
+  rewrite (LP_eigvecs g l (HLP l HP)).
+  pose proof (HLP l HP) as [_ Hk].
+  pose proof (Hk K_n_opers_transformed) as Hn. pose proof (Hk K_basis_transformed) as Hb.
+  pose proof (Hk K_control_matrix_step) as Hc. unfold tag_for, key_kind in Hn, Hb, Hc. simpl in Hn, Hb, Hc.
+  assert (Hd : derive_eig g TI
+                 ((match di l K_n_opers_transformed with Some t => [t] | None => [] end) ++
+                  (match di l K_basis_transformed, di l K_control_matrix_step with
+                   | Some tb, Some _ => [tb] | _, _ => [] end))
+                 (match di l K_basis_transformed, di l K_control_matrix_step with
+                  | Some _, Some tc => [tc] | _, _ => [] end) = Ret (TF g)).
+  { destruct (di l K_n_opers_transformed), (di l K_basis_transformed), (di l K_control_matrix_step);
+      repeat match goal with
+             | H : Some _ = None \/ Some _ = Some _ |- _ => destruct H as [H | H]; [discriminate H | injection H as ->]
+             | H : None = None \/ None = Some _ |- _ => clear H
+             end;
+      unfold derive_eig, eig_consistent, derive; simpl; rewrite ?grid_eqb_refl; reflexivity. }
+  rewrite Hd. apply wp_lift_ret, HQ, Hlog, HP.
 Qed.
 
 Lemma wp_cache_ff : forall g (cmo : option (tag * bool)) (ffo : option tag) w o ci (Q : unit -> lst -> Prop) l,
@@ -712,9 +733,13 @@ Proof.
   apply wp_bind. apply (wp_lazy_prop _ (LCO g)); [apply stable_LCO | exact H2 | ]. intros l3 H3. cbv beta.
   apply wp_bind. apply (wp_lazy_prop _ (LCO g)); [apply stable_LCO | exact H3 | ]. intros l4 H4. cbv beta.
   apply wp_bind. apply (wp_t_prop (LCO g)); [apply stable_LCO | exact H4 | ]. intros l5 H5. cbv beta.
+  wnext. rewrite (LP_eigvecs g l5 (LCO_LP g l5 H5)).
   apply wp_bind. apply wp_may_raise; [split; [eapply LCO_LC, H5 | apply Hinj] | ]. cbv beta.
   apply wp_seq with (R := fun v l' => LCO g l' /\ v = TF g).
-  - cbn [fst]. destruct Ha as [-> | ->], Hb as [-> | ->]; rewrite ?derive_1, ?derive_3; apply wp_lift_ret; (split; [exact H5 | reflexivity]).
+  - cbn [fst]. destruct Ha as [-> | ->], Hb as [-> | ->]; rewrite ?derive_1;
+      try (apply wp_lift_ret; (split; [exact H5 | reflexivity])).
+    unfold derive_eig, eig_consistent, derive; simpl; rewrite grid_eqb_refl; simpl.
+    apply wp_lift_ret; (split; [exact H5 | reflexivity]).
   - intros v l6 [H6 ->]. apply wp_bind. apply wp_may_raise; [split; [eapply LCO_LC, H6 | apply Hinj] | ]. cbv beta.
     apply wp_ret. apply HQ; [exact H6 | reflexivity | reflexivity].
 Qed.
@@ -846,7 +871,7 @@ Proof.
   intros Q l H HQ. unfold periodic_input.
   apply wp_bind. apply (wp_tau_prop LC); [apply stable_LC | exact H | ]. intros l1 H1. cbv beta.
   wnext. destruct (sl l1 S_control_matrix); [ | apply wp_ret, HQ, H1].
-  wnext. destruct (sl l1 S_omega) as [[ | g | ] | ]; try (apply wp_ret, HQ, H1).
+  wnext. destruct (sl l1 S_omega) as [[ | g | | | ] | ]; try (apply wp_ret, HQ, H1).
   apply wp_bind. apply wp_get_total_phases; [exact H1 | ]. intros r l2 H2 _ _.
   apply wp_bind. apply wp_get_cm; [eapply LCO_LC, H2 | ]. intros r' l3 H3 _ _.
   apply wp_bind. apply (wp_tpl_prop (LCO g)); [apply stable_LCO | exact H3 | ]. intros l4 H4. cbv beta.
@@ -891,7 +916,9 @@ Proof.
   - apply wp_noret, (wp_tpl_prop A HA LC); [apply stable_LC | exact H | auto].
   - apply wp_noret, (wp_t_prop A LC); [apply stable_LC | exact H | auto].
   - apply wp_noret, (wp_tau_prop A LC); [apply stable_LC | exact H | auto].
-  - destruct H as [g Hg]. apply wp_noret, (wp_cleanup_any m g); [exact Hg | intros l' H'; eapply LCG_LC, H'].
+  - destruct H as [g Hg]. apply wp_noret. unfold cleanup_user. cbn [m_cleanup_pops_eig fixed].
+    apply wp_bind. apply (wp_cleanup_any m g); [exact Hg | ]. intros l' H'. cbv beta.
+    destruct m; apply wp_ret; eapply LCG_LC, H'.
   - apply wp_raise. split; [exact H | exact I].
   - apply wp_withret, wp_infidelity; [exact HA | intros _; split; exact I | exact H | intros r l' H' _ _; eapply LCO_LC, H'].
   - apply wp_withret, wp_decay_amplitudes; [exact HA | intros _; split; exact I | exact H | intros r l' H' _ _; eapply LCO_LC, H'].
@@ -1035,6 +1062,11 @@ Proof.
   intros g ts l. unfold lift, derive. split; [reflexivity | ].
   intros lab. destruct (forallb _ ts); [discriminate | ]. destruct (forallb _ ts); discriminate.
 Qed.
+Lemma ni_lift_derive_eig : forall g c ts ts', ni (lift (derive_eig g c ts ts')).
+Proof.
+  intros g c ts ts'. unfold derive_eig. destruct (eig_consistent c ts); [apply ni_lift_derive | ].
+  intros l. split; [reflexivity | discriminate].
+Qed.
 Lemma ni_seq_all : forall A (f : A -> M unit) xs, (forall x, ni (f x)) -> ni (seq_all f xs).
 Proof.
   intros A f xs Hf. induction xs as [ | x r IH]; simpl; [apply ni_ret | apply ni_bind; [apply Hf | intros _; exact IH]].
@@ -1059,6 +1091,7 @@ Ltac ni_step :=
   | |- ni (may_raise _) => apply ni_may_raise
   | |- ni (cleanup _) => apply ni_cleanup
   | |- ni (lift (derive _ _)) => apply ni_lift_derive
+  | |- ni (lift (derive_eig _ _ _ _)) => apply ni_lift_derive_eig
   | |- ni (raise E_calc) => apply ni_raise; discriminate
   | |- ni (raise E_value) => apply ni_raise; discriminate
   | |- ni (raise E_shape) => apply ni_raise; discriminate
@@ -1084,7 +1117,7 @@ Lemma ni_cache_cm_rest : forall mc g v b, ni (cache_cm_rest mc g v b).
 Proof. intros; unfold cache_cm_rest; pose proof ni_cache_total_phases; pose proof ni_tpl_prop; ni_auto. Qed.
 Lemma ni_cache_cm_given : forall mc g v b, ni (cache_cm_given mc g v b).
 Proof. intros; unfold cache_cm_given; pose proof ni_guard; pose proof ni_cache_cm_rest; ni_auto. Qed.
-Lemma ni_update_intermediates : forall g, ni (update_intermediates g).
+Lemma ni_update_intermediates : forall g ev, ni (update_intermediates g ev).
 Proof. intros; unfold update_intermediates; ni_auto. Qed.
 Lemma ni_get_cm : forall mc g ci, ni (get_cm mc g ci).
 Proof.
@@ -1123,7 +1156,7 @@ Qed.
 Lemma ni_run_op : forall mc o, ni (run_op mc o).
 Proof.
   intros mc o. destruct o; cbn [run_op]; unfold noret, withret, error_transfer_matrix, infidelity_derivative,
-    concat_input, extend_input, periodic_input, propagator_at;
+    concat_input, extend_input, periodic_input, propagator_at, cleanup_user;
   pose proof ni_get_cm; pose proof ni_cache_cm; pose proof ni_get_pccm; pose proof ni_get_ff; pose proof ni_cache_ff;
   pose proof ni_get_pcff; pose proof ni_get_deriv; pose proof ni_get_total_phases; pose proof ni_cache_total_phases;
   pose proof ni_diagonalize; pose proof ni_lazy_prop; pose proof ni_tpl_prop; pose proof ni_t_prop; pose proof ni_tau_prop;
@@ -1206,7 +1239,7 @@ Qed.
 (* coherent_step: every operation, every abort point *)
 Lemma coherent_step : forall st c, Coherent st -> gop_ok c = true -> Coherent (step st c).
 Proof.
-  intros st c H Hok. unfold step, step_with, exec. destruct c as [i o k | i | i | ].
+  intros st c H Hok. unfold step, step_with, exec. destruct c as [i o k | i | i | | ]; [ | | | | discriminate Hok].
   - destruct (Nat.ltb i (nobj st)) eqn:Hi; [ | exact H]. apply Nat.ltb_lt in Hi.
     pose proof (run_op_coherent o (view st i) Hok (view_LC st i H Hi) k) as Hr.
     destruct (run_op fixed o (view st i) k) as [[l k'] [a | e]]; simpl; apply write_back_coherent; assumption.
@@ -1332,7 +1365,8 @@ Qed.
 (* ================================================================== a decision procedure (one direction) *)
 Definition tag_eqb (a b : tag) : bool :=
   match a, b with
-  | TI, TI => true | TF g, TF g' => grid_eqb g g' | TBad n, TBad m => Nat.eqb n m | _, _ => false
+  | TI, TI => true | TF g, TF g' => grid_eqb g g' | TBad n, TBad m => Nat.eqb n m
+  | TE e, TE e' => Nat.eqb e e' | TFE g e, TFE g' e' => grid_eqb g g' && Nat.eqb e e' | _, _ => false
   end.
 Definition ok_for (g : grid) (k : kind) (v : option tag) : bool :=
   match v with None => true | Some t => tag_eqb t (want g k) end.
@@ -1350,7 +1384,10 @@ Definition coherent_b (st : store) : bool :=
   forallb (fun i => obj_cohb (objs st i) (dicts st (iref st i))) (seq 0 (nobj st)).
 
 Lemma tag_eqb_refl : forall t, tag_eqb t t = true.
-Proof. destruct t; simpl; [reflexivity | apply grid_eqb_refl | apply Nat.eqb_refl]. Qed.
+Proof.
+  destruct t; simpl; [reflexivity | apply grid_eqb_refl | apply Nat.eqb_refl | apply Nat.eqb_refl | ].
+  rewrite grid_eqb_refl, Nat.eqb_refl. reflexivity.
+Qed.
 Lemma ok_for_tag_for : forall g k v, tag_for g k v -> ok_for g k v = true.
 Proof. intros g k v [-> | ->]; simpl; [reflexivity | apply tag_eqb_refl]. Qed.
 
@@ -1388,7 +1425,7 @@ Definition result_with (mc : mech) (st : store) (c : gop) := snd (fst (exec mc s
 
 (* (a) cache_* methods that do not clear on a change of grid (the code before commit 9802619):
    the control matrix of g1 is served for g2 *)
-Definition no_clear : mech := mkMech false true true.
+Definition no_clear : mech := mkMech false true true false.
 Definition hist_a : list gop :=
   [Call 0 (GetCM g1 false) never; Call 0 (CacheFF g2 None (Some true) Fidelity First false) never].
 Example cache_clear_needed :
@@ -1400,7 +1437,7 @@ Proof. split; [reflexivity | split; [apply not_coherent; vm_compute; reflexivity
 
 (* (b) shallow copies sharing the _intermediates dict (before commit 35d842e): the copy computes its
    second-order filter function for g1 from the original's intermediates of g2 *)
-Definition shared_dict : mech := mkMech true false true.
+Definition shared_dict : mech := mkMech true false true false.
 Definition hist_b : list gop := [Call 0 (GetCM g1 true) never; Copy 0; Call 0 (GetCM g2 true) never].
 Example own_dict_needed :
   forallb gop_ok hist_b = true /\
@@ -1418,7 +1455,7 @@ Proof. vm_compute. reflexivity. Qed.
 
 (* (c) get_filter_function_derivative reading the intermediates before requesting the control matrix
    (before commit 031d19d): first-order integral of g1 used for g2; exception for another length *)
-Definition deriv_before : mech := mkMech true true false.
+Definition deriv_before : mech := mkMech true true false false.
 Definition hist_c : list gop := [Call 0 (GetCM g1 true) never].
 Example deriv_order_needed :
   result_with deriv_before (run_with deriv_before hist_c) (Call 0 (GetDeriv g2) never) = Ret (Some (TBad 4, Computed)) /\
@@ -1434,6 +1471,33 @@ Example correct_user_data_needed :
   result_with fixed (run_with fixed hist_d) (Call 0 (GetCM g1 false) never) = Ret (Some (TBad 4, Served)).
 Proof. split; [reflexivity | split; [apply not_coherent; vm_compute; reflexivity | vm_compute; reflexivity]]. Qed.
 
+(* (e) REFUTED for pulses made by extend(...) with cached diagonalization (eigvals / eigvecs assembled from the
+   inputs' ones: a valid decomposition, not the one numeric.diagonalize returns): the intermediates
+   n_opers_transformed, basis_transformed, first_order_integral are expressed in the cached eigenbasis,
+   cleanup('conservative') drops the eigenbasis but keeps them, the next request re-diagonalizes and combines the
+   old intermediates with the new eigen-data.  Object 1 is the extended pulse.  (Finding c07-eig-intermediates,
+   reproduced on the implementation: relative errors 0.37 / 1.0.) *)
+Definition hist_x : list gop :=
+  [FreshExtended; Call 1 (GetCM g1 true) never; Call 1 (Cleanup Conservative) never].
+Example extended_refuted :
+  forallb gop_ok hist_x = false /\
+  result_with fixed (run_with fixed hist_x) (Call 1 (GetFF g1 Fidelity Second false) never) = Ret (Some (TBad 4, Computed)) /\
+  result_with fixed (run_with fixed hist_x) (Call 1 (GetDeriv g1) never) = Ret (Some (TBad 4, Computed)) /\
+  result_with fixed (run_with fixed hist_x) (Call 1 (Cumulant g1 Total true None) never) = Ret (Some (TBad 4, Computed)) /\
+  (* the same requests on the same object without the clean-up, and after it on a plain pulse, are fine *)
+  result_with fixed (run_with fixed [FreshExtended; Call 1 (GetCM g1 true) never])
+              (Call 1 (GetFF g1 Fidelity Second false) never) = Ret (Some (TF g1, Computed)) /\
+  result_with fixed (run_with fixed [Fresh; Call 1 (GetCM g1 true) never; Call 1 (Cleanup Conservative) never])
+              (Call 1 (GetFF g1 Fidelity Second false) never) = Ret (Some (TF g1, Computed)).
+Proof. repeat split; vm_compute; reflexivity. Qed.
+(* with the proposed repair (cleanup('conservative') also drops the three eigenbasis-dependent intermediates)
+   the witnesses give the right values *)
+Example extended_repaired :
+  result_with proposed (run_with proposed hist_x) (Call 1 (GetFF g1 Fidelity Second false) never) = Ret (Some (TF g1, Computed)) /\
+  result_with proposed (run_with proposed hist_x) (Call 1 (GetDeriv g1) never) = Ret (Some (TF g1, Computed)) /\
+  result_with proposed (run_with proposed hist_x) (Call 1 (Cumulant g1 Total true None) never) = Ret (Some (TF g1, Computed)).
+Proof. repeat split; vm_compute; reflexivity. Qed.
+
 (* the hypotheses of the theorems are satisfiable on non-trivial stores: a history with intermediates,
    a shallow copy, an aborted call, clean-up, a deep copy *)
 Definition hist_e : list gop :=
@@ -1445,3 +1509,49 @@ Example hypotheses_satisfiable :
   map (occupancy (fold_left step hist_e init)) [0; 1; 2] = [214527; 2032639; 7]%N /\
   result (fold_left step hist_e init) (Call 1 (GetFF g3 Fidelity Second true) never) = Ret (Some (TF g3, Computed)).
 Proof. repeat split; vm_compute; reflexivity. Qed.
+
+(* ================================================================== outside the abstraction: mutable grids *)
+(* The theorems above treat frequency grids as immutable values.  The implementation stores a REFERENCE to the
+   caller's array (omega.setter: np.asarray(value) does not copy), so np.array_equal(self.omega, omega) compares
+   the caller's array with itself after the caller has modified it in place.  Minimal model of that: one array
+   cell owned by the caller, a pulse whose _omega is (a reference to) that cell or None, one cached filter
+   function tagged with the grid it was computed for.  (Finding c07-omega-alias.) *)
+Record astate := mkA { cell : grid; omega_is_cell : bool; ff_cached : option grid }.
+Inductive aop :=
+| ARequest              (* pulse.get_filter_function(w), w being the caller's array *)
+| AMutate (g' : grid).  (* the caller writes new frequencies into w in place *)
+Definition astep (s : astate) (o : aop) : astate * option grid :=
+  match o with
+  | AMutate g' => (mkA g' (omega_is_cell s) (ff_cached s), None)
+  | ARequest =>
+      match omega_is_cell s, ff_cached s with
+      | true, Some g => (s, Some g)            (* np.array_equal(self.omega, omega) holds trivially: served *)
+      | _, _ => (mkA (cell s) true (Some (cell s)), Some (cell s))
+      end
+  end.
+Definition ainit (g : grid) : astate := mkA g false None.
+
+Example omega_alias_refuted : forall g g', g <> g' ->
+  let s1 := fst (astep (ainit g) ARequest) in
+  let s2 := fst (astep s1 (AMutate g')) in
+  cell s2 = g' /\ snd (astep s2 ARequest) = Some g.
+Proof. intros g g' _. split; reflexivity. Qed.
+(* with a private copy (_omega := np.array(value)) the comparison sees the change *)
+Definition astep_copy (s : astate * grid) (o : aop) : (astate * grid) * option grid :=
+  let '(a, own) := s in
+  match o with
+  | AMutate g' => ((mkA g' (omega_is_cell a) (ff_cached a), own), None)
+  | ARequest =>
+      match ff_cached a with
+      | Some g => if grid_eqb own (cell a) then (s, Some g)
+                  else ((mkA (cell a) true (Some (cell a)), cell a), Some (cell a))
+      | None => ((mkA (cell a) true (Some (cell a)), cell a), Some (cell a))
+      end
+  end.
+Example omega_copy_repaired : forall g g', g <> g' ->
+  let s1 := fst (astep_copy (ainit g, g) ARequest) in
+  let s2 := fst (astep_copy s1 (AMutate g')) in
+  snd (astep_copy s2 ARequest) = Some g'.
+Proof.
+  intros g g' Hne. simpl. destruct (grid_eqb g g') eqn:E; [apply grid_eqb_eq in E; contradiction | reflexivity].
+Qed.
